@@ -125,16 +125,23 @@ theorem deep_sites_covered :
 
 /-- A loop whose closure can abort, print, append to the change script, call code the translator
 cannot resolve, read another source of nondeterminism or write a package variable is never
-"described": such kinds occur only at the loops with a row, within what the row admits. -/
+"described" — with one exception: a `guarded` body may print, because the translator has checked that
+every call of a printing function sits in a `default:` clause of the switch over the key, and may
+panic (a complaint decided by the entry alone); complaints are excluded by the hypothesis `NoComplaint`
+(LoadConfig: `default_keys_known`, `default_vals_parse`; addDefaults: `quote_token_only_in_subcommands`). Otherwise such kinds
+occur only at the loops with a row, within what the row admits. -/
 theorem deep_kinds_admissible :
     (deepSites.zip NA.Gen.MapRangesDescr.descrs).all (fun p =>
-      p.1.kinds.isEmpty || (!p.2.body.described &&
+      p.1.kinds.isEmpty ||
+      ((match p.2.body with | .guarded _ => true | _ => false) && p.1.kinds.all (fun k => k == "out" || k == "abort")) ||
+      (!p.2.body.described &&
         deepExpected.any (fun e => e.matchesSite p.1 && p.1.kinds.all (e.allow.contains ·)))) = true := by
   decide
 
 theorem deep_exceptions_are_two :
-    (deepExpected.filter (fun e => !e.allow.isEmpty)).map (fun e => (e.fn, e.allow)) =
-      [("parser.addDefaults", ["abort"]), ("LoadConfig", ["out"])] := by decide
+    deepExpected.filter (fun e => !e.allow.isEmpty) = [] ∧
+    ((deepSites.zip NA.Gen.MapRangesDescr.descrs).filter (fun p => !p.1.kinds.isEmpty && p.2.body.described)).map
+      (fun p => (p.1.fn, p.1.kinds)) = [("parser.addDefaults", ["abort"]), ("LoadConfig", ["out"])] := by decide
 
 /-- Exception 1: `matchCmd` can panic only under the template token `"`; no toplevel command type
 of asa/ios cmd-info.go has it, and `addDefaultObject` parses toplevel commands only. -/
